@@ -26,6 +26,7 @@ def _ck():
 
 # which lanes a property uses ------------------------------------------------------------------
 VERUS_PROPS = ['C01', 'C02', 'C03', 'C04', 'C05', 'C07', 'C08', 'C09', 'C10', 'C11', 'C12', 'C14', 'C15', 'C17', 'C18']
+THOROUGH_CACHE = {}
 LEVEL = {p: 'proof' for p in VERUS_PROPS}
 LEVEL.update({'C05': 'other', 'C16': 'proof', 'C19': 'other'})
 
@@ -146,6 +147,33 @@ def verus_lane(pid, tier, cov, ledger, findings, assumptions):
     for name, ok in alg_ok.items():
         if not ok:
             out['undecided'].append('algebra lemma %s not discharged: %s' % (name, [x for x in alg_res if x['name'] == name]))
+    # thorough tier: vacuity pass (assert(false) must fail in every function) and two more solver seeds on the whole crate
+    if tier == 'thorough':
+        key = w.sha
+        if key not in THOROUGH_CACHE:
+            tpath = os.path.join(ck.CACHE, 'thorough-' + key + '.json')
+            if os.path.exists(tpath) and not os.environ.get('VERIF_NO_CACHE'):
+                THOROUGH_CACHE[key] = json.load(open(tpath))
+            else:
+                n, vac, vres = ck.vacuity()
+                seeds = []
+                for sd in (101, 202):
+                    r2 = V.run_verus(w.text, rlimit=160, timeout=3000, extra=['--smt-option', 'smt.random_seed=%d' % sd])
+                    d2 = V.classify(r2, w.text, fns, ins_lines=set(w.ins_line.keys()))
+                    seeds.append({'seed': sd, 'verified': r2.get('verified'), 'errors': r2.get('errors'), 'wall_s': round(r2.get('wall_s', 0), 1),
+                                  'failing': sorted(set(d.fn.id for d in d2 if d.fn is not None))})
+                THOROUGH_CACHE[key] = {'vacuity': {'functions': n, 'vacuous': vac, 'wall_s': round(vres.get('wall_s', 0), 1)}, 'seeds': seeds}
+                os.makedirs(ck.CACHE, exist_ok=True)
+                json.dump(THOROUGH_CACHE[key], open(tpath, 'w'))
+        th = THOROUGH_CACHE[key]
+        cov['thorough'] = th
+        if th['vacuity']['vacuous']:
+            out['undecided'].append('vacuity: assert(false) verified in ' + ', '.join(th['vacuity']['vacuous'][:5]))
+        base_fail = set(d.fn.id for d in diags if d.fn is not None)
+        for sr in th['seeds']:
+            extra_f = [f for f in sr['failing'] if f not in base_fail]
+            if extra_f:
+                out['undecided'].append('seed-unstable obligations (fail under seed %d only): %s' % (sr['seed'], ', '.join(extra_f[:5])))
     # failures --------------------------------------------------------------------------------------
     failed = {}      # obligation id -> [diag]
     fn_undecided = {}
@@ -204,6 +232,20 @@ def verus_lane(pid, tier, cov, ledger, findings, assumptions):
         n_ok += len(clauses)
         if len(samples) < 6 and not support:
             samples.append({'obligation': ob_id, 'clauses': clauses[:3], 'source': ck.src_loc(vd, f.lo)})
+    if pid == 'C18':
+        # layout: every field is a fixed-size scalar, Option<f64>, the period-length buffer or an indicator; fixed part within the bound
+        for prob in getattr(w, 'layout_problems', []):
+            out['undecided'].append('state layout: ' + prob)
+        for name, li in sorted(getattr(w, 'layout_info', {}).items()):
+            n_ob += 1
+            if li['fixed_bytes_K'] <= 256 and 8 * li['buffers'] <= 64:
+                n_ok += 1
+            else:
+                path = write_replay(pid, 'layout::' + name, {'property': pid, 'obligation': 'layout::' + name, 'lane': 'layout', 'struct': name, 'layout': li,
+                                                              'note': 'fixed serialized part K=%d bytes, %d buffers: exceeds 256 + 64*period' % (li['fixed_bytes_K'], li['buffers']), 'counterexample': None})
+                out['violations'].append(('layout::' + name, path, False))
+        cov['layout'] = {k: {'fixed_bytes_K': v['fixed_bytes_K'], 'buffers': v['buffers'], 'fields': ['%s: %s' % f for f in v['fields']]} for k, v in getattr(w, 'layout_info', {}).items()}
+        assumptions.append('bincode layout rules are ASSUMED (usize/f64 8 bytes, bool 1, Option<f64> 1 or 9, Box<[f64]> 8 + 8*len, nested struct = sum); real bincode output and live-heap counters are not measured')
     cov['obligations'] += n_ob
     cov['discharged'] += n_ok
     cov['samples'] += samples
